@@ -268,6 +268,7 @@ def m_vec_len(e, c, a): return len(vec_of(a[0]).items)
 def m_vec_is_empty(e, c, a): return len(vec_of(a[0]).items) == 0
 def m_vec_clear(e, c, a): vec_of(a[0]).items[:] = []; return UNIT
 def m_vec_index(e, c, a):
+    if type(unref(a[0])) is Str: return m_str_index(e, c, a)
     v = vec_of(a[0]); i = a[1]
     if is_sym(i): i = e.concretize(i)
     if type(i) is Adt:      # ranges
@@ -605,35 +606,31 @@ def utf8_bytes(e, chars):
             out.extend(chr(ch).encode('utf-8', 'surrogatepass'))
     return out
 def utf8_decode(e, bs):
-    """bytes (ints / BitVec8) -> list of chars, or None if (on this path) not valid UTF-8"""
+    """bytes (ints / BitVec8) -> list of chars, or None if (on this path) not well-formed UTF-8 (Unicode 15 table 3-7)"""
     out = []; i = 0; n = len(bs)
-    def bv(x): return x if is_sym(x) else z3.BitVecVal(x, 8)
+    def inr(x, lo, hi):
+        if is_sym(x): return e.branch(z3.And(z3.UGE(x, z3.BitVecVal(lo, 8)), z3.ULE(x, z3.BitVecVal(hi, 8))))
+        return lo <= x <= hi
+    def w(x): return z3.ZeroExt(24, x) if is_sym(x) else x
+    ROWS = [((0xC2, 0xDF), [(0x80, 0xBF)]), ((0xE0, 0xE0), [(0xA0, 0xBF), (0x80, 0xBF)]), ((0xE1, 0xEC), [(0x80, 0xBF), (0x80, 0xBF)]),
+            ((0xED, 0xED), [(0x80, 0x9F), (0x80, 0xBF)]), ((0xEE, 0xEF), [(0x80, 0xBF), (0x80, 0xBF)]),
+            ((0xF0, 0xF0), [(0x90, 0xBF), (0x80, 0xBF), (0x80, 0xBF)]), ((0xF1, 0xF3), [(0x80, 0xBF), (0x80, 0xBF), (0x80, 0xBF)]),
+            ((0xF4, 0xF4), [(0x80, 0x8F), (0x80, 0xBF), (0x80, 0xBF)])]
     while i < n:
         b = bs[i]
-        if not is_sym(b):
-            if b < 0x80: out.append(b); i += 1; continue
-            # concrete lead byte: need concrete continuation
-            k = 2 if 0xC2 <= b <= 0xDF else (3 if 0xE0 <= b <= 0xEF else (4 if 0xF0 <= b <= 0xF4 else 0))
-            if k == 0 or i + k > n: return None
-            rest = bs[i+1:i+k]
-            if any(is_sym(x) for x in rest):
-                raise Unsupported('utf8 decode: symbolic continuation after concrete lead')
-            try:
-                out.append(ord(bytes([b] + rest).decode('utf-8')))
-            except UnicodeDecodeError:
-                return None
-            i += k; continue
-        if e.branch(z3.ULT(b, 0x80)):
-            out.append(z3.ZeroExt(24, b)); i += 1; continue
-        # multi-byte with symbolic lead: decode 2-byte sequences only (stated bound), else invalid
-        if e.branch(z3.And(z3.UGE(b, 0xC2), z3.ULE(b, 0xDF))):
-            if i + 1 >= n: return None
-            b2 = bs[i+1]
-            c2 = z3.And(z3.UGE(bv(b2), 0x80), z3.ULE(bv(b2), 0xBF))
-            if not e.branch(c2): return None
-            out.append((z3.ZeroExt(24, b & 0x1F) << 6) | z3.ZeroExt(24, bv(b2) & 0x3F)); i += 2; continue
-        if e.branch(z3.Or(z3.ULT(b, 0xC2), z3.UGT(b, 0xF4))): return None
-        raise Unsupported('utf8 decode: symbolic 3/4-byte lead')
+        if inr(b, 0, 0x7F): out.append(w(b)); i += 1; continue
+        row = None
+        for lead, conts in ROWS:
+            if inr(b, lead[0], lead[1]): row = conts; break
+        if row is None: return None
+        k = len(row)
+        if i + k > n - 1: return None
+        for j, (lo, hi) in enumerate(row):
+            if not inr(bs[i + 1 + j], lo, hi): return None
+        mask = {1: 0x1F, 2: 0x0F, 3: 0x07}[k]
+        v = w(b) & mask
+        for j in range(k): v = (v << 6) | (w(bs[i + 1 + j]) & 0x3F)
+        out.append(v if is_sym(v) else int(v)); i += 1 + k
     return out
 def m_from_utf8(e, c, a):
     v = unref(a[0])
@@ -685,6 +682,18 @@ def m_to_string(e, c, a):
             e.exec_fn(f, [Ref(Cell(v)), Ref(Cell(Adt('Formatter', None, [Cell(out)])), True)])
             return out
     raise Unsupported('to_string of %r' % (v,))
+def char_pat(e, p):
+    """char-class patterns (char, [char; N], &[char], FnMut(char) -> bool) -> predicate over one element; None for string patterns"""
+    q = unref(p)
+    if type(q) is Str: return None
+    if type(q) is VecV:
+        alts = [x.v for x in q.items]
+        return lambda ch: zor([ch_eq(ch, k) for k in alts])
+    if type(q) is Adt and q.ty.startswith('{closure@') or type(q) is FnItem:
+        return lambda ch: e.call_closure(p, [ch])
+    if isinstance(q, int) or is_sym(q): return lambda ch: ch_eq(ch, q)
+    raise Unsupported('string pattern %r' % (q,))
+
 def m_starts_with(e, c, a):
     s = as_str(a[0]).chars; p = a[1]
     if type(p) is Ref or type(p) is Str:
@@ -704,10 +713,11 @@ def m_ends_with(e, c, a):
     return ch_eq(s[-1], p)
 def m_str_contains(e, c, a):
     s = as_str(a[0]).chars; p = a[1]
-    if type(p) is Ref or type(p) is Str:
+    cp = char_pat(e, p)
+    if cp is None:
         pc = as_str(p).chars; n = len(pc)
         return zor([zand([ch_eq(s[i+k], pc[k]) for k in range(n)]) for i in range(len(s) - n + 1)])
-    return zor([ch_eq(x, p) for x in s])
+    return zor([cp(x) for x in s])
 def m_replace_char(e, c, a):
     s = as_str(a[0]).chars; pat = a[1]; to = as_str(a[2]).chars
     out = []
@@ -727,9 +737,11 @@ def m_replace_str(e, c, a):
     return Str(out)
 def m_str_find_char(e, c, a):
     s = as_str(a[0]).chars; p = a[1]
+    cp = char_pat(e, p)
+    if cp is None: raise Unsupported('str::find with a string pattern')
     off = 0
     for ch in s:
-        if e.branch(ch_eq(ch, p)): return some(off)
+        if e.branch(cp(ch)): return some(off)
         off = off + utf8_len(e, [ch])
     return none()
 def m_str_split_char(e, c, a):
@@ -822,10 +834,24 @@ def m_string_pop(e, c, a):
     s = as_str(a[0])
     return some(s.chars.pop()) if s.chars else none()
 def m_string_clear(e, c, a): as_str(a[0]).chars[:] = []; return UNIT
+def byte_to_char_index(e, chars, b):
+    """char position of byte offset b (forks on the UTF-8 width of symbolic chars); Panic if not on a boundary"""
+    if is_sym(b): b = e.concretize(b)
+    acc = 0
+    for i, ch in enumerate(chars):
+        if acc == b: return i
+        w = utf8_len(e, [ch])
+        if is_sym(w): w = e.concretize(w)
+        acc += w
+        if acc > b: raise Panic('byte index %d is not a char boundary' % b)
+    if acc == b: return len(chars)
+    raise Panic('byte index %d out of bounds' % b)
 def m_string_insert_str(e, c, a):
-    s = as_str(a[0]); i = a[1]
-    if i != 0: raise Unsupported('insert_str at non-zero offset')
-    s.chars[0:0] = as_str(a[2]).chars; return UNIT
+    s = as_str(a[0]); i = byte_to_char_index(e, s.chars, a[1])
+    s.chars[i:i] = as_str(a[2]).chars; return UNIT
+def m_string_insert(e, c, a):
+    s = as_str(a[0]); i = byte_to_char_index(e, s.chars, a[1])
+    s.chars.insert(i, a[2]); return UNIT
 def m_cow_deref(e, c, a):
     v = unref(a[0])
     if type(v) is Adt and v.ty == 'Cow':
@@ -933,9 +959,16 @@ def fmt_one(e, arg, spec=None):
         w = INTW.get(tb, 32)
         nd = max(width, 1)
         if is_sym(v):
-            if not (spec and spec.get('zero') and width * 4 >= w): raise Unsupported('hex formatting of symbolic value without full zero padding')
             vv = z3.ZeroExt(32 - w, v) if w < 32 else v
-            return [hexdigit(e, z3.LShR(vv, 4 * (width - 1 - i)) & 0xF, upper) for i in range(width)]
+            maxd = w // 4
+            # number of significant hex digits: fork on the magnitude
+            nd = maxd
+            for d in range(1, maxd):
+                if e.branch(z3.ULT(vv, z3.BitVecVal(1 << (4 * d), vv.size()))): nd = d; break
+            digits = [hexdigit(e, z3.LShR(vv, 4 * (nd - 1 - i)) & 0xF, upper) for i in range(nd)]
+            pad = max(width - nd, 0)
+            fill = 0x30 if (spec and spec.get('zero')) else (spec.get('fill', 0x20) if spec else 0x20)
+            return [fill] * pad + digits
         s = ('%X' if upper else '%x') % (v & ((1 << w) - 1))
         if spec and spec.get('zero'): s = s.rjust(width, '0')
         else: s = s.rjust(width, ' ')
@@ -1253,7 +1286,7 @@ MODELS = [(re.compile(p, re.S), f) for p, f in [
     (r'(core|std)::str::<impl str>::contains::<.*>$', m_str_contains),
     (r'(core|std)::str::<impl str>::replace::<char>$', m_replace_char),
     (r'(core|std)::str::<impl str>::replace::<&str>$', m_replace_str),
-    (r'(core|std)::str::<impl str>::find::<char>$', m_str_find_char),
+    (r'(core|std)::str::<impl str>::find::<.*>$', m_str_find_char),
     (r'(core|std)::str::<impl str>::split::<.*>$', m_str_split_char),
     (r'(core|std)::str::<impl str>::trim$', m_str_trim),
     (r'(core|std)::str::<impl str>::to_lowercase$|(core|std)::str::<impl str>::to_ascii_lowercase$', m_str_to_case(True)),
@@ -1280,6 +1313,7 @@ MODELS = [(re.compile(p, re.S), f) for p, f in [
     (r'std::string::String::clear$', m_string_clear),
     (r'std::string::String::truncate$', m_string_truncate),
     (r'std::string::String::insert_str$', m_string_insert_str),
+    (r'std::string::String::insert$', m_string_insert),
     (r'std::string::String::reserve$', m_unit),
     (r'<std::string::String as std::fmt::Write>::write_fmt$', m_write_fmt),
     (r'<std::string::String as std::fmt::Write>::write_str$', m_write_str),
@@ -1343,6 +1377,8 @@ MODELS = [(re.compile(p, re.S), f) for p, f in [
     (r'char::methods::<impl char>::is_ascii$|core::num::<impl u8>::is_ascii$', m_is_ascii),
     (r'char::methods::<impl char>::is_digit$', m_char_is_digit),
     (r'char::methods::<impl char>::to_string$', m_char_to_string),
+    (r'char::methods::<impl char>::encode_utf8$', lambda e, c, a: Ref(Cell(Str([a[0]])), True)),
+    (r'char::methods::<impl char>::len_utf8$', lambda e, c, a: utf8_len(e, [a[0]])),
     (r'core::num::<impl \w+>::checked_add$', m_checked('Add')),
     (r'core::num::<impl \w+>::checked_sub$', m_checked('Sub')),
     (r'core::num::<impl \w+>::checked_mul$', m_checked('Mul')),
